@@ -117,10 +117,11 @@ def run(ctx):
                 "non-trivial iff ≥ 2 datagrams with stream data, both directions, exported exactly.")
     ctx.assumptions = ["ground truth comes from harness/gen_quic.py (independent RFC sender); datagrams are told apart by "
                        "their capture timestamps as the property says"]
-    import c02_model
-    ctx.prove(c02_model.modules() + ["TLX.Props.C16", "TLX.Props.C17"])
-    ctx.require_theorems(c02_model.theorems())
+    import c02_model, c02_file_thms, file_corr
+    ctx.prove(c02_model.modules() + ["TLX.Props.C16", "TLX.Props.C17"] + c02_file_thms.MODULES)
+    ctx.require_theorems(c02_model.theorems() + c02_file_thms.THEOREMS)   # C02File: C02 as ONE theorem about exportFile
     c02_model.run_model(ctx)          # ties every QUIC component model to the real code
+    file_corr.correspond(ctx, ctx.n(20, 400))     # ties exportFile (capture FILE + key-log file → output FILE) byte for byte
     explore(ctx)
     return ctx.finish(search=lambda c: explore(c, scale=2))
 
